@@ -37,6 +37,18 @@ def ok_term(kind, f, recv='self'):
         return '%s@.len() <= 65535' % x
     return None
 
+def eqv_term(kind, f):
+    a, b = 'self.%s' % f, 'other.%s' % f
+    if kind in ('u8', 'u16', 'u32', 'u128', 'i32'):
+        return '%s == %s' % (a, b)
+    if kind.startswith('bytes') or kind == 'tail':
+        return '%s@ == %s@' % (a, b)
+    if kind == 'name':
+        return '%s.lv() == %s.lv()' % (a, b)
+    if kind == 'cstr':
+        return '%s.bytes() == %s.bytes()' % (a, b)
+    raise ValueError(kind)
+
 def dec_steps(fields, v='v'):
     """list of (condition, next_q_expr) over data, q"""
     steps = []
@@ -140,14 +152,17 @@ def rt_items(tname, fields, nocomp=None):
             hints.append('assert(d.subrange(%s, d.len() as int) =~= %s@);' % (q, x))
         lines.append('        assert(%s) by { %s }' % (cond, ' '.join(hints)))
     lines.append('        assert(q%d == d.len());' % len(fields))
+    eqv = ' && '.join(eqv_term(k, f) for k, f in fields)
     return ("""    open spec fn wf_cdec(data: Seq<u8>, p: int, v: &Self, p2: int) -> bool { Self::wf_dec(data, p, v, p2) }
     open spec fn wf_canon(&self) -> bool { true }
     open spec fn wf_in_rdata() -> bool { true }
     open spec fn wf_nocomp() -> bool { %s }
+    open spec fn wf_eqv(&self, other: &Self) -> bool { %s }
+    proof fn lemma_det(data: Seq<u8>, p: int, v1: &Self, e1: int, v2: &Self, e2: int) {}
     proof fn lemma_rt(&self, pre: Seq<u8>) {
 %s
     }
-""" % (nc, '\n'.join(lines)))
+""" % (nc, eqv, '\n'.join(lines)))
 
 def _unused():
     return ("")
